@@ -129,13 +129,15 @@ func runC20(r *vk.Run) {
 		nc := rng.Range(2, 6)
 		vals := []string{"v", "v1", "", "x y", "v\"q", "é"}
 		var keyPool []string
+		special := ""
 		for i := 0; i < 4; i++ {
 			keyPool = append(keyPool, randKey(rng, c20Alphabet, 1, 10))
 		}
 		if rng.Chance(1, 4) {
 			// keys whose sanitised name is one of the container's built-in labels or a word the query
 			// language also uses as a function / conversion name
-			keyPool[rng.Intn(len(keyPool))] = vk.Pick(rng, c20SpecialKeys)
+			special = vk.Pick(rng, c20SpecialKeys)
+			keyPool[rng.Intn(len(keyPool))] = special
 		}
 		var inv []CSpec
 		for i := 0; i < nc; i++ {
@@ -150,6 +152,27 @@ func runC20(r *vk.Run) {
 		}
 		k := vk.Pick(rng, keyPool)
 		v := vk.Pick(rng, vals)
+		if rng.Chance(1, 4) {
+			// spellings of one name spread over the containers of one listing: each container carries
+			// exactly one of them, so nothing collides inside any container
+			w := vk.Pick(rng, []string{"app", "svc", "a", "x9", "team"}) + vk.Pick(rng, []string{"", "9"})
+			twins := []string{w + ".name", w + "_name", w + "-name", w + "/name", w + " name"}
+			for i := range inv {
+				for _, t := range twins {
+					delete(inv[i].Labels, t)
+				}
+				inv[i].Labels[twins[(i+c.Idx)%len(twins)]] = vk.Pick(rng, []string{"v", "v1", "x y"})
+			}
+			k = vk.Pick(rng, twins)
+			v = vk.Pick(rng, []string{"v", "v1", "x y"})
+			c.Count("spellings_spread_over_containers", 1)
+		}
+		if special != "" && rng.Bool() {
+			k = special
+			if rng.Bool() {
+				v = ""
+			}
+		}
 		_, sk := modelSanitise(k)
 		if c20Keywords[sk] {
 			c.Count("excluded_reserved_word", 1)
@@ -169,14 +192,14 @@ func runC20(r *vk.Run) {
 			if builtinClash {
 				c.Count("docker_label_named_like_builtin", 1)
 			}
-			if hv, has := m[sk]; has && hv == v {
+			// {x=""} matches an empty-valued label and (C02's subject) a container lacking the label; the
+			// Docker label's own value counts, also when it is empty and the name is a built-in one
+			if hv, has := m[sk]; (has && hv == v) || (!has && v == "") {
 				want = append(want, cs.ID)
 			}
 		}
 		if v == "" {
-			// {x=""} also matches containers lacking the label (C02's subject); keep C20 to present labels
-			c.Count("excluded_empty_value", 1)
-			return
+			c.Count("empty_value_selections", 1)
 		}
 		sort.Strings(want)
 		fd := newFakeDocker(inv)
